@@ -288,10 +288,12 @@ func (es *EventSystem) consumeEvents() {
 				continue
 			}
 
+			// the read lock is held until the event is handed over (or dropped):
+			// eventLoop closes the topic channel under the write lock when the last filter is uninstalled
 			es.indexMux.RLock()
 			ch, ok := es.topicChans[ev.Query]
-			es.indexMux.RUnlock()
 			if !ok {
+				es.indexMux.RUnlock()
 				es.logger.Debug("channel for subscription not found", "topic", ev.Query)
 				es.logger.Debug("list of available channels", "channels", es.eventBus.Topics())
 				continue
@@ -305,6 +307,7 @@ func (es *EventSystem) consumeEvents() {
 				es.logger.Debug("dropped event during lagging subscription", "topic", ev.Query)
 			case ch <- ev:
 			}
+			es.indexMux.RUnlock()
 		}
 
 		time.Sleep(time.Second)
